@@ -4,6 +4,7 @@ import NgoVerif.Model.Collect
 import NgoVerif.Model.Globals
 import NgoVerif.Model.Options
 import NgoVerif.Model.Api
+import NgoVerif.DriverCleanup
 /-!
 # Line-protocol driver: one s-expression request per line on stdin, one s-expression answer per line on stdout.
 
@@ -48,6 +49,15 @@ def runMakeUnique (u : UniqueVars) : List Sexp → List String → Option (List 
       let (r, u') ← u.makeUnique v
       runMakeUnique u' rest (r :: acc)
   | _, _ => none
+
+/-- handlers contributed by the per-pass driver files; tried in order -/
+def extHandlers : List (Sexp → Option Sexp) := [handleCleanup]
+
+def tryExt (req : Sexp) : List (Sexp → Option Sexp) → Sexp
+  | [] => unsupported "unknown op"
+  | h :: hs => match h req with
+    | some r => r
+    | none => tryExt req hs
 
 def handle (req : Sexp) : Sexp :=
   match req with
@@ -112,7 +122,7 @@ def handle (req : Sexp) : Sexp :=
     match n.toNat? with
     | some k => if flags.length == fl.length then ok [strsToSexp (traceStages flags k)] else unsupported "flags"
     | none => unsupported "iterations"
-  | _ => unsupported "unknown op"
+  | _ => tryExt req extHandlers
 
 partial def loop (hin : IO.FS.Stream) (hout : IO.FS.Stream) : IO Unit := do
   let line ← hin.getLine
